@@ -508,6 +508,9 @@ def gen_a(rng, tier):
             if nonempty:
                 choices.append((5, 'pop'))
             choices.append((0.4, 'popany'))
+            batchable = [i for i in range(npool) if kinds[i] in 'BL' and m.pools[i]]
+            if batchable:
+                choices.append((1.6, 'popn'))
             if outs:
                 choices += [(3, 'push'), (5, 'run'), (1.5, 'sa')]
             if terms:
@@ -544,6 +547,19 @@ def gen_a(rng, tier):
                     th = m.pools[p].pop(i)
                     m.x[th]['loc'] = 'O'
                 op = "%s %d %d" % (rng.choice(["po", "pp"]), p, k)
+            elif kind == 'popn':
+                # ABT_pool_pop_threads with a batch length below, at and above the pool's size (built-in pools: pop_many;
+                # legacy ABT_pool_def pools: pool_pop_many_wrapper over the user's p_pop)
+                p = rng.choice(batchable)
+                sz = len(m.pools[p])
+                n = max(1, min(16, rng.choice([1, 2, sz - 1, sz, sz + 1, sz // 2 + 1])))
+                k = rng.randrange(0, 7)
+                for _ in range(n):
+                    if m.pools[p]:
+                        i = 0 if m.builtin(p) else k % len(m.pools[p])
+                        th = m.pools[p].pop(i)
+                        m.x[th]['loc'] = 'O'
+                op = "pn %d %d %d" % (p, n, k)
             elif kind == 'push':
                 th = rng.choice(outs)
                 p = rng.randrange(npool)
